@@ -10,6 +10,8 @@ import (
 	"time"
 
 	"github.com/ipni/go-libipni/announce"
+	"github.com/ipni/go-libipni/announce/message"
+	"github.com/ipni/go-libipni/announce/p2psender"
 	"github.com/libp2p/go-libp2p/core/host"
 	"github.com/libp2p/go-libp2p/core/peer"
 	"github.com/multiformats/go-multiaddr"
@@ -284,61 +286,123 @@ func c16Concurrent(c *vf.Ctx) {
 	}
 }
 
-// with a real pubsub topic: the watcher goroutine must exit
+// with a real pubsub topic: announcements keep arriving over gossip while Close is
+// called (the allow callback doubles as a delay point between the watcher's steps),
+// and the watcher goroutine must exit
 func c16Pubsub(c *vf.Ctx) {
 	const sub = "pubsub-shutdown"
 	if !c.Active(sub) {
 		return
 	}
-	n := c.N(6, 100)
+	n := c.N(8, 120)
 	for i := 0; i < n; i++ {
 		if !c.Mine(sub, i) || c16TooManyHangs() {
 			continue
 		}
 		r := c.Rand(sub, i)
 		c.Cur(sub, i, "")
-		h, err := newHost()
-		if err != nil {
-			c.Inconclusive(sub, i, "host-create", err.Error(), nil)
+		hA, err1 := newHost()
+		hR, err2 := newHost()
+		if err1 != nil || err2 != nil {
+			c.Inconclusive(sub, i, "host-create", fmt.Sprint(err1, err2), nil)
 			continue
 		}
-		func(h host.Host) {
-			defer h.Close()
-			rc, err := announce.NewReceiver(h, fmt.Sprintf("/verif/c16/%d/%d", c.Seed, i))
+		func() {
+			defer hA.Close()
+			defer hR.Close()
+			topicName := fmt.Sprintf("/verif/c16/%d/%d", c.Seed, i)
+			topics, cancelPS, err := meshTopics([]host.Host{hA, hR}, topicName)
+			if err != nil {
+				c.Inconclusive(sub, i, "mesh", err.Error(), nil)
+				return
+			}
+			defer cancelPS()
+			delay := time.Duration(1+r.Intn(8)) * time.Millisecond
+			var inAllow atomic.Int64
+			allow := func(peer.ID) bool {
+				inAllow.Add(1)
+				time.Sleep(delay)
+				return true
+			}
+			ownTopic := r.Intn(2) == 0
+			var rc *announce.Receiver
+			if ownTopic {
+				rc, err = announce.NewReceiver(hR, topicName, announce.WithTopic(topics[1]), announce.WithAllowPeer(allow))
+			} else {
+				rc, err = announce.NewReceiver(hR, topicName, announce.WithTopic(topics[1]), announce.WithAllowPeer(allow), announce.WithResend(true))
+			}
 			if err != nil {
 				c.Inconclusive(sub, i, "receiver-create", err.Error(), nil)
 				return
 			}
-			seq := []string{}
-			for k := r.Intn(4); k > 0; k-- {
-				seq = append(seq, []string{"Direct", "Next", "Uncache"}[r.Intn(3)])
+			snd, err := p2psender.New(nil, "", p2psender.WithTopic(topics[0]))
+			if err != nil {
+				c.Inconclusive(sub, i, "sender-create", err.Error(), nil)
+				return
+			}
+			col := collect(rc)
+			stop := make(chan struct{})
+			var pubWG sync.WaitGroup
+			pubWG.Add(1)
+			go func() {
+				defer pubWG.Done()
+				for k := 0; ; k++ {
+					select {
+					case <-stop:
+						return
+					default:
+					}
+					m := message.Message{Cid: c09Cid(800000 + 1000*i + k)}
+					m.SetAddrs([]multiaddr.Multiaddr{multiaddr.StringCast("/ip4/8.8.4.4/tcp/1/http")})
+					_ = snd.Send(context.Background(), m)
+					time.Sleep(2 * time.Millisecond)
+				}
+			}()
+			defer func() { close(stop); pubWG.Wait(); snd.Close() }()
+			// wait until gossip announcements actually flow into the receiver
+			deadline := time.Now().Add(15 * time.Second)
+			for len(col.snapshot()) < 2 && time.Now().Before(deadline) {
+				time.Sleep(5 * time.Millisecond)
+			}
+			if len(col.snapshot()) < 2 {
+				c.Inconclusive(sub, i, "mesh-not-formed", "no gossip announcement reached the receiver within 15 s", nil)
+				rc.Close()
+				return
 			}
 			nclose := 1 + r.Intn(3)
-			wit := func() any { return map[string]any{"sequence_before_close": seq, "closes": nclose, "pubsub": true} }
-			closed := false
-			for k, op := range seq {
-				if !c16CheckResult(c, sub, i, seq, k, c16Do(rc, op, k), closed, wit) {
-					return
-				}
+			wit := func() any {
+				return map[string]any{"pubsub": true, "concurrent_closers": nclose, "allow_callback_delay": delay.String(), "resend": !ownTopic, "announcements_in_allow_callback_before_close": inAllow.Load()}
 			}
-			// concurrent closers
+			// start Close right after the watcher entered the allow callback (it is between its steps)
+			before := inAllow.Load()
+			for w := 0; w < 2000 && inAllow.Load() == before; w++ {
+				time.Sleep(200 * time.Microsecond)
+			}
 			var wg sync.WaitGroup
+			okAll := true
+			var mu sync.Mutex
 			for k := 0; k < nclose; k++ {
 				wg.Add(1)
 				go func(k int) {
 					defer wg.Done()
-					c16CheckResult(c, sub, i, []string{"concurrent Close"}, k, c16Do(rc, "Close", k), false, wit)
+					if !c16CheckResult(c, sub, i, []string{"Close while gossip announcements are being handled"}, k, c16Do(rc, "Close", k), false, wit) {
+						mu.Lock()
+						okAll = false
+						mu.Unlock()
+					}
 				}(k)
 			}
 			wg.Wait()
+			if !okAll {
+				return
+			}
 			for k, op := range []string{"Direct", "Next", "Uncache", "Close"} {
 				if !c16CheckResult(c, sub, i, []string{"after-close", op}, k, c16Do(rc, op, 50+k), true, wit) {
 					return
 				}
 			}
-			// the pubsub watcher goroutine must be gone (polled: it exits asynchronously w.r.t. nothing, Close waits for it)
 			var left []string
-			for try := 0; try < 50; try++ {
+			for try := 0; try < 100; try++ {
 				left = left[:0]
 				for _, g := range vf.LibGoroutines() {
 					if strings.Contains(g, "announce.(*Receiver).watch") {
@@ -354,7 +418,11 @@ func c16Pubsub(c *vf.Ctx) {
 				c.Fail(sub, i, "pubsub-watcher-still-running", left[0], wit())
 			}
 			c.Inc("pubsub_shutdowns")
-		}(h)
+			c.Add("gossip_announcements_handled_before_close", inAllow.Load())
+			if c.WantSample(sub) {
+				c.Sample(sub, wit())
+			}
+		}()
 		c.Eval(1)
 		c.Distinct(sub, fmt.Sprint(i))
 	}
